@@ -26,6 +26,7 @@ type gor struct {
 	blocked func() bool // non-nil while blocked: returns true when it may run again
 	panicv  interface{} // unrecovered target panic
 	started bool
+	stuck   bool // blocked forever (deadlock after a crash): never scheduled again
 	fn      value
 	args    []value
 	pos     token.Pos
@@ -93,7 +94,7 @@ func (s *scheduler) body(g *gor) {
 
 // runnable reports whether g can run now.
 func (g *gor) runnable() bool {
-	if g.done {
+	if g.done || g.stuck {
 		return false
 	}
 	if g.blocked != nil {
@@ -148,9 +149,20 @@ func (s *scheduler) block(fr *frame, what string, cond func() bool) {
 		nxt := s.pick(me)
 		if nxt == nil {
 			me.blocked = nil
+			if len(s.crashed) > 0 {
+				// a goroutine died from an unrecovered panic: in Go the whole process is gone
+				r := &abortPath{Kind: "goroutine-panic", Reason: panicString(s.crashed[0].panicv)}
+				if me != s.main {
+					s.abort = r
+					me.stuck = true
+					s.switchTo(s.main)
+				}
+				panic(r)
+			}
 			if me != s.main {
 				// nobody can make progress: give the baton to main which reports
 				s.abort = &abortPath{Kind: "block", Reason: "deadlock: goroutine blocked on " + what}
+				me.stuck = true
 				s.switchTo(s.main)
 			}
 			panic(&abortPath{Kind: "block", Reason: "would block forever on " + what})
